@@ -231,7 +231,13 @@ def impl_case(case, workdir):
     prev_loaded = None
     with warnings.catch_warnings():
         warnings.simplefilter("ignore")
-        if case.get("prev") is not None:
+        prev_bytes = None
+        if case.get("prev") is not None and "other" in case["prev"]:
+            # an existing file that is not an HDF5 file: text, or an empty stub
+            prev_bytes = b"" if case["prev"]["other"] == 2 else b"this is not an hdf5 file\n" * 12
+            with open(path, "wb") as fh:
+                fh.write(prev_bytes)
+        elif case.get("prev") is not None:
             pv = case["prev"]
             dnp.save(build_obj(pv["single"]) if "single" in pv else build_ws(pv["ws"]), path, overwrite=True)
             try:
@@ -245,7 +251,8 @@ def impl_case(case, workdir):
         except BaseException as e:  # noqa: BLE001  (save raises Warning, a BaseException subclass of Exception)
             raised = type(e).__name__
         state = {"raised": raised is not None, "exists": os.path.exists(path), "tree": None, "loaded": None,
-                 "loads": False, "prev_loaded": prev_loaded, "leftover_tmp": os.path.exists(path + ".tmp~")}
+                 "loads": False, "prev_loaded": prev_loaded, "leftover_tmp": os.path.exists(path + ".tmp~"),
+                 "bytes_same": (prev_bytes is not None and os.path.exists(path) and open(path, "rb").read() == prev_bytes)}
         if state["exists"]:
             try:
                 state["loaded"] = canon_loaded(dnp.load(path))
